@@ -47,6 +47,11 @@ type TSpec struct {
 	InScope func(fn *ssa.Function) bool
 	Clamp   int
 
+	// InlineDefers analyses deferred function literals in the state in which the defers run
+	// (context-sensitive), instead of through a context-free summary.
+	InlineDefers bool
+	deferFns     map[string]*ssa.Function
+
 	summaries map[*ssa.Function]*tsSummary
 	busy      map[*ssa.Function]bool
 }
@@ -248,6 +253,9 @@ func nilFactKeys(x ssa.Value) []string {
 // Analyze runs the engine over fn starting from entry state `entry` (may be nil = empty).
 func (sp *TSpec) Analyze(fn *ssa.Function, entry *tsState, watch InstrPred) *TSResult {
 	res := &TSResult{Fn: fn, At: map[ssa.Instruction][]*tsState{}}
+	if sp.deferFns == nil {
+		sp.deferFns = map[string]*ssa.Function{}
+	}
 	if len(fn.Blocks) == 0 {
 		return res
 	}
@@ -293,6 +301,16 @@ func (sp *TSpec) Analyze(fn *ssa.Function, entry *tsState, watch InstrPred) *TSR
 			}
 			switch x := in.(type) {
 			case *ssa.Defer:
+				if lit := closureCallee(&x.Call); lit != nil && lit.Parent() != nil && sp.InlineDefers {
+					k := fmt.Sprintf("fn:%p", lit)
+					sp.deferFns[k] = lit
+					for _, st := range states {
+						if st.defs[k] < 1 {
+							st.defs[k]++
+						}
+					}
+					continue
+				}
 				effs := sp.callEffects(x, &x.Call)
 				if len(effs) > 0 {
 					k := encEffs(effs)
@@ -306,14 +324,42 @@ func (sp *TSpec) Analyze(fn *ssa.Function, entry *tsState, watch InstrPred) *TSR
 			case *ssa.Go:
 				continue
 			case *ssa.RunDefers:
+				var next []*tsState
 				for _, st := range states {
+					var lits []*ssa.Function
 					for k, n := range st.defs {
+						if strings.HasPrefix(k, "fn:") {
+							lits = append(lits, sp.deferFns[k])
+							continue
+						}
 						for i := 0; i < n; i++ {
 							sp.apply(st, decEffs(k), in, b, res)
 						}
 					}
 					st.defs = map[string]int{}
+					cur := []*tsState{st}
+					for _, lit := range lits {
+						var out []*tsState
+						for _, c := range cur {
+							sub := sp.Analyze(lit, c, nil)
+							res.Underflows = append(res.Underflows, sub.Underflows...)
+							seenK := map[string]bool{}
+							for _, e := range sub.Exits {
+								e.State.defs = map[string]int{}
+								if k := e.State.key(); !seenK[k] {
+									seenK[k] = true
+									out = append(out, e.State)
+								}
+							}
+							if len(sub.Exits) == 0 {
+								out = append(out, c)
+							}
+						}
+						cur = out
+					}
+					next = append(next, cur...)
 				}
+				states = next
 				continue
 			case *ssa.Return:
 				for _, st := range states {
